@@ -382,14 +382,35 @@ func checkC12(r *core.Run) {
 				succ[b] = true
 			}
 		}
-		trig := callsIn(r, fn, s.trigger)
+		trig := deepCalls(r, fn, s.trigger)
 		if len(trig) == 0 {
 			r.Undecide("T-timeout", core.Key("T-timeout", s.fn, "trigger"), r.P.FuncPos(fn), "vacuous: no call of "+s.trigger)
 			continue
 		}
-		for i, t := range trig {
+		for i, dc := range trig {
+			t := dc.Call
 			key := core.Key("T-timeout", s.fn, fmt.Sprintf("%s#%d => timeout scheduled", s.trigger, i+1))
-			if ok, w := ck.MustRespond(t.Block(), succ, resp, nil); ok {
+			// a hand-over inside an extracted helper: scheduled before the helper returns (on every path), or by
+			// one of the enclosing frames after the call that leads there
+			ok, w := false, []string(nil)
+			fns := dc.Fr.Fns(fn)
+			for lvl := len(dc.Fr.Chain); lvl >= 0 && !ok; lvl-- {
+				at := dc.Fr.At(lvl, t)
+				if lvl == 0 {
+					ok, w = ck.MustRespond(at.Block(), succ, resp, nil)
+					break
+				}
+				g := fns[lvl]
+				rets := map[*ssa.BasicBlock]bool{}
+				for _, b := range g.Blocks {
+					if isReturnBlock(b) {
+						rets[b] = true
+					}
+				}
+				gck := &guard.Checker{P: r.P, Fn: g, Res: r.Resolver(g)}
+				ok, _ = gck.MustRespond(at.Block(), rets, blocksCallingDeep(r, g, fSetTimeout, 0), nil)
+			}
+			if ok {
 				r.Discharge("T-timeout", key, r.P.Pos(t.Pos()), "every success path after the hand-over passes SetTimeoutOrderBlock")
 			} else {
 				r.Violate("T-timeout", key, r.P.Pos(t.Pos()), s.fn+" can hand shards to providers and succeed without scheduling the order's timeout check: an unresponsive provider leaves the order (and the payment) unresolved forever", w...)
@@ -409,14 +430,15 @@ func checkC12(r *core.Run) {
 		order := fGetOrder + "(#2)"
 		pending := constVal(r, "order/types", "OrderPending")
 		sched := blocksCalling(r, fn, fSetTimeout)
+		zero, zeroVals := waitingTests(r, fn) // timeoutCount == 0: nothing waiting
 		allowed := []guard.Atom{
 			guard.False(order + "#1"), // order gone
 			guard.Eq("*"+order+"#0.Status", pending),
 			guard.Ge("(uint64(sdk.Context.BlockHeight()) + *"+order+"#0.Timeout)", "(*"+order+"#0.CreatedAt + *"+order+"#0.Duration)"), // end-of-life cut-off
-			guard.Eq("phi(*)", "0"), // timeoutCount == 0: nothing waiting
 			guard.Lt("(*Timeout * 10)", "(uint64(sdk.Context.BlockHeight()) - *"+order+"#0.CreatedAt)"), // give-up after MaxTries
 			guard.Lt("(10 * *Timeout)", "(uint64(sdk.Context.BlockHeight()) - *"+order+"#0.CreatedAt)"),
 		}
+		allowed = append(allowed, zero...)
 		n := 0
 		for _, b := range fn.Blocks {
 			if !isReturnBlock(b) {
@@ -439,12 +461,13 @@ func checkC12(r *core.Run) {
 		}, 2)
 
 		// ---- nothing-waiting branch
-		zero := []guard.Atom{guard.Eq("phi(*)", "0")}
 		zedges := ck.PassEdges(zero)
 		var zb *ssa.BasicBlock
 		for e := range zedges {
-			if iff := cfgx.IfOf(e.From); iff != nil && strings.HasPrefix(res.Of(iff.Cond).String(), "(phi(") {
-				zb = e.To
+			if iff := cfgx.IfOf(e.From); iff != nil {
+				if bo, ok := iff.Cond.(*ssa.BinOp); ok && zeroVals[bo.X] {
+					zb = e.To
+				}
 			}
 		}
 		key := core.Key("T-nowait", hto, "no coins moved, only non-completed shards removed")
@@ -478,12 +501,17 @@ func checkC12(r *core.Run) {
 						if n2 == "model/keeper.Keeper.CancelOrder" {
 							bad = "cancels the order"
 						}
-						if n2 == fRemoveShard {
-							// the list ranged over must be fed only under Status != Completed
-							if t := callTerm(res, c); t != nil && len(t.Args) == 1 {
-								if !listFedOnlyUnder(r, fn, c, guard.Ne("*.Status", constVal(r, "order/types", "ShardCompleted"))) {
-									bad = "removes shards from a list that may contain completed shards"
+						if h := c.Common().StaticCallee(); h != nil && r.P.Transparent(h) {
+							for _, g := range transparentClosure(r, h) {
+								if len(callsIn(r, g, "model/keeper.Keeper.CancelOrder")) > 0 {
+									bad = "cancels the order (in " + r.P.Name(g) + ")"
 								}
+							}
+						}
+						// the lists whose shards are removed must be fed only under Status != Completed
+						for _, rm := range removalsAt(r, fn, c, 0) {
+							if rm.List == nil || !listFedOnlyUnderV(r, rm.Fn, rm.List, guard.Ne("*.Status", constVal(r, "order/types", "ShardCompleted"))) {
+								bad = "removes shards from a list that may contain completed shards"
 							}
 						}
 					}
@@ -532,36 +560,11 @@ func checkC12(r *core.Run) {
 // listFedOnlyUnder: the call's argument is the element of a ranged list; every append feeding that list is
 // dominated by the atom.
 func listFedOnlyUnder(r *core.Run, fn *ssa.Function, call ssa.CallInstruction, atom guard.Atom) bool {
-	// find the loop containing the call and the slice it ranges over
-	var listV ssa.Value
-	for _, l := range cfgx.Loops(fn) {
-		if !l.Body[call.Block()] {
-			continue
-		}
-		if iff := cfgx.IfOf(l.Header); iff != nil {
-			if bo, ok := iff.Cond.(*ssa.BinOp); ok {
-				if lc, ok := bo.Y.(*ssa.Call); ok && len(lc.Call.Args) == 1 {
-					listV = lc.Call.Args[0]
-				}
-			}
-		}
-	}
+	listV := rangedListOf(fn, call)
 	if listV == nil {
 		return false
 	}
-	ck := &guard.Checker{P: r.P, Fn: fn, Res: r.Resolver(fn)}
-	n := 0
-	for v := range phiWeb(listV) {
-		if c, ok := v.(*ssa.Call); ok {
-			if bi, ok := c.Call.Value.(*ssa.Builtin); ok && bi.Name() == "append" {
-				n++
-				if ok, _ := ck.MustPass(c.Block(), []guard.Atom{atom}); !ok {
-					return false
-				}
-			}
-		}
-	}
-	return n > 0
+	return listFedOnlyUnderV(r, fn, listV, atom)
 }
 
 // ---------------------------------------------------------------- C13
@@ -747,54 +750,60 @@ func rulePartition(r *core.Run) {
 	for _, b := range fn.Blocks {
 		for _, ins := range b.Instrs {
 			if st, ok := ins.(*ssa.Store); ok && fieldPath(st.Addr) == "order/types.Order.Shards" {
-				if _, isPhi := st.Val.(*ssa.Phi); isPhi {
+				if isCollected(r, st.Val) {
 					kept = append(kept, st.Val)
 				}
 			}
 		}
 	}
-	// the removed list: slices ranged over by loops that call RemoveShard(elem)
-	var removed []ssa.Value
-	for _, l := range cfgx.Loops(fn) {
-		has := false
-		for b := range l.Body {
-			for _, ins := range b.Instrs {
-				if c, ok := ins.(ssa.CallInstruction); ok {
-					if n, _ := res.CalleeName(c.Common()); n == fRemoveShard {
-						has = true
-					}
-				}
-			}
-		}
-		if !has {
-			continue
-		}
-		if iff := cfgx.IfOf(l.Header); iff != nil {
-			if bo, ok := iff.Cond.(*ssa.BinOp); ok {
-				if lc, ok := bo.Y.(*ssa.Call); ok && len(lc.Call.Args) == 1 {
-					if _, isPhi := lc.Call.Args[0].(*ssa.Phi); isPhi {
-						removed = append(removed, lc.Call.Args[0])
+	// the removed lists: collected slices every element of which is handed to RemoveShard (by a loop here or in a helper)
+	type fv struct {
+		fn *ssa.Function
+		v  ssa.Value
+	}
+	var removed []fv
+	for _, b := range fn.Blocks {
+		for _, ins := range b.Instrs {
+			if c, ok := ins.(ssa.CallInstruction); ok {
+				for _, rm := range removalsAt(r, fn, c, 0) {
+					if rm.List != nil && isCollected(r, rm.List) {
+						removed = append(removed, fv{rm.Fn, rm.List})
 					}
 				}
 			}
 		}
 	}
+	_ = res
 	key := core.Key("T-partition", fnName, "every shard is kept or removed")
 	if len(kept) == 0 || len(removed) == 0 {
 		r.Undecide("T-partition", key, r.P.FuncPos(fn), fmt.Sprintf("kept/removed lists not identified (%d, %d)", len(kept), len(removed)))
 		return
 	}
 	app := map[*ssa.BasicBlock]bool{}
-	for _, v := range append(append([]ssa.Value{}, kept...), removed...) {
-		for x := range phiWeb(v) {
-			if c, ok := x.(*ssa.Call); ok {
-				if bi, ok := c.Call.Value.(*ssa.Builtin); ok && bi.Name() == "append" {
-					app[c.Block()] = true
-				}
+	var classFn *ssa.Function
+	spread := false
+	note := func(o listOrigin) {
+		for _, s := range o.Sites {
+			if classFn != nil && s.Fn != classFn {
+				spread = true
 			}
+			classFn = s.Fn
+			app[s.App.Block()] = true
 		}
 	}
-	// the classification loop: the range over order.Shards containing those appends
+	for _, v := range kept {
+		note(listOriginOf(r, fn, v))
+	}
+	for _, x := range removed {
+		note(listOriginOf(r, x.fn, x.v))
+	}
+	if classFn == nil || spread {
+		r.Undecide("T-partition", key, r.P.FuncPos(fn), "the appends feeding the kept and removed lists are not in one function")
+		return
+	}
+	// the classification loop: the range over order.Shards containing those appends (in the handler or in the
+	// helper that collects the lists)
+	fn = classFn
 	for _, l := range cfgx.Loops(fn) {
 		if !rangesField(r, fn, l, "Shards") {
 			continue
